@@ -316,8 +316,16 @@ def symbolic_attractor_test(
     # completed and no unprocessed variables remaining.
     all_done = False
 
+    # Set if a whole iteration of the main cycle changed nothing: the forward
+    # set was not allowed to grow (it is symbolically larger than `avoid`),
+    # `avoid` cannot grow, and no further variable can be added. The next
+    # iteration then has to extend the forward set regardless of its size,
+    # otherwise the cycle would repeat forever without making progress.
+    force_forward = False
+
     while not all_done:
         all_done = True
+        progress = False
 
         # Saturate reach_set with currently selected variables, but only if
         # it's symbolic size is smaller than that of the avoid set (reach set
@@ -342,8 +350,14 @@ def symbolic_attractor_test(
                     all_variables_done = (
                         len(conflict_vars) == 0 and len(other_vars) == 0
                     )
-                    if no_avoid or avoid_is_larger or all_variables_done:
+                    if (
+                        no_avoid
+                        or avoid_is_larger
+                        or all_variables_done
+                        or force_forward
+                    ):
                         reach_set = updated
+                        progress = True
                         saturation_done = False
                         if reach_set.symbolic_size() > 100_000 and sd.config["debug"]:
                             print(
@@ -366,6 +380,7 @@ def symbolic_attractor_test(
                     if not predecessors.is_empty():
                         all_done = False
                         avoid = avoid.union(predecessors)
+                        progress = True
                         saturation_done = False
                         if avoid.symbolic_size() > 100_000 and sd.config["debug"]:
                             print(
@@ -425,6 +440,7 @@ def symbolic_attractor_test(
                 continue
 
             all_done = False
+            progress = True
 
             reach_set = reach_set.union(can_go_fwd)
             if avoid is not None:
@@ -444,6 +460,8 @@ def symbolic_attractor_test(
                 )
 
             break
+
+        force_forward = not progress
 
     if sd.config["debug"]:
         print(f"[{node_id}] > Reachability completed with {reach_set}.")
